@@ -114,6 +114,16 @@ def run_once_rule(run, f, rid, settle_rid=None, skip_rid=None):
             run.fail(skip_rid, "%s/removes-pending-cancel" % ob.npath, ob.loc(t["line"]), "%s withdraws a pending cancel request (CANCEL_TASKS.%s) although the task has not been skipped: the task then runs anyway" % (ob.npath, norm(t["callee"]).rsplit("::", 1)[1]))
         if not others:
             run.ok(skip_rid, "CANCEL_TASKS/consumers", "only try_run consumes cancel requests")
+    # RUNNING_TASKS pairing: the task->coroutine record is removed on every path after the task ran
+    if skip_rid and runs:
+        ins = calls_on_static(b, du, "dashmap::DashMap::insert", RUNNING_TASKS)
+        rem = calls_on_static(b, du, "dashmap::DashMap::remove", RUNNING_TASKS)
+        okp = bool(rem) and cfg.must_pass(cfg.after(runs[0][0]), [x for (x, _t) in rem])[0]
+        keyed = all(derives_from_call(b, du, t["args"][1], (x, "term"), lambda c, tt: c == "co_pool::task::Task::id") for (x, t) in ins + rem)
+        if ins and okp and keyed and all(x not in cfg.reachable(cfg.after(runs[0][0])) for (x, _t) in ins):
+            run.ok(skip_rid, "try_run/running-record-paired", "RUNNING_TASKS.insert(id, co) before run, remove(id) on every path after run")
+        else:
+            run.fail(skip_rid, "try_run/running-record-paired", b.loc(), "the RUNNING_TASKS record of a task is not removed on every path after the task ran: a later cancel of the finished task is aimed at the worker coroutine, which by then runs another task")
     # C13-SETTLE: on the skip path the waiter is settled unless no_waits
     if settle_rid:
         run.rule(settle_rid, "a task skipped because it was cancelled settles its waiter (result inserted, notify) unless the handle was dropped", floor=1, template="T1")
